@@ -529,3 +529,31 @@ def x15_async_mut_params(sig, body):
     lets = ' '.join('let mut %s = %s;' % (n, n) for n in names)
     body = '{ ' + lets + body[1:]
     return sig, body, hits
+
+
+# ---------------------------------------------------------------- X22 `?` on Result
+def x22_try_result(s):
+    """`E?` -> `(match E { Ok(__v) => __v, Err(__e) => return Err(From::from(__e)) })` — the
+    reference desugaring of `?` on `Result` (Verus does not know the error conversion of `?`
+    itself, but does know `From::from` of the extracted/shimmed impls)."""
+    hits = []
+    while True:
+        # find the last '?' outside literals
+        pos = []
+        i = 0
+        n = len(s)
+        while i < n:
+            j = skip_literal(s, i)
+            if j != i:
+                i = j
+                continue
+            if s[i] == '?':
+                pos.append(i)
+            i += 1
+        if not pos:
+            return s, hits
+        q = pos[0]
+        start = expr_start(s, q)
+        recv = s[start:q]
+        hits.append(' '.join(recv.split())[-60:] + '?')
+        s = s[:start] + "(match %s { Ok(__v) => __v, Err(__e) => return Err(From::from(__e)) })" % recv + s[q + 1:]
